@@ -36,8 +36,8 @@ TRACE_PLANS = {
             ("synth:cyclic,midconflict,base,excl,locks,unknown", 120, 2500, "", False)],
     "C05": [("solve:midconflict,conflict,direct", 250, 4000, "", True),
             ("solve:base,cyclic", 200, 3000, "hints", True)],
-    "C07": [("solve:clean", 500, 8000, "hints,async,perm", False),
-            ("solve:unionoverlap", 200, 3000, "hints,async", False)],
+    "C07": [("solve:clean", 500, 8000, "hints,async,perm", True),
+            ("solve:unionoverlap", 200, 3000, "hints,async", True)],
     "C08": [("solve:direct", 300, 6000, "act,hints", True),
             ("solve:direct2", 300, 6000, "act", True),
             ("template:direct", 300, 6000, "", True)],
